@@ -5,6 +5,8 @@ import (
 	"go/token"
 	"go/types"
 
+	"golang.org/x/tools/go/cfg"
+
 	"pgoverif/checker/an"
 	"pgoverif/checker/core"
 )
@@ -50,8 +52,6 @@ func runMBDecision(c *core.Ctx) {
 		return isSlice
 	}
 	rows := []dtRow{
-		{fn: "relaxedMailboxesLocal.handleConn", key: "delivers-decoded-message", occ: true, why: "every successfully decoded message is delivered (and nothing else)", find: sendOn("msgChannel"),
-			bools: []string{"err==nil#1", "err==nil#2"}, ref: func(a dtAtoms) bool { return a.B("err==nil#1") && a.B("err==nil#2") }},
 		{fn: "relaxedMailboxesRemote.WriteValue", key: "marks-sent-after-successful-encode", occ: true, why: "the section counts as having sent only when the message went out", find: storeFieldConst("hasSent", true),
 			bools: []string{"err==nil#1", "err==nil#2"}, ref: func(a dtAtoms) bool { return a.B("err==nil#1") && a.B("err==nil#2") }},
 		{fn: "relaxedMailboxesRemote.WriteValue", key: "encodes-the-message", occ: true, why: "the written value is actually put on the wire once the connection is up", find: func(info *types.Info, n ast.Node) bool {
@@ -90,4 +90,121 @@ func runMBDecision(c *core.Ctx) {
 	}
 	// the TCP receiver's publish / exchange rows are decided by MB-PUBLISH and MB-TAGS on its tag switch
 	runDecisionRows(c, e, an.PkgResources, "", rows)
+	relaxedDelivers(c, e, sendOn("msgChannel"))
+}
+
+// relaxedDelivers: in relaxedMailboxesLocal.handleConn, a message is handed to the delivery channel exactly when the
+// decode that produced it succeeded. Path formulation (indifferent to where the error of the previous round is examined,
+// and to how often it is tested): R = the atoms at which the decode result arrives (`err = <-errCh`, `err := dec.Decode(..)`);
+// every path from the entry to a delivery crosses an R; from an R no path reaches a delivery without taking the nil
+// outcome of a test of that error; and from an R, following only nil outcomes, every path delivers before the next R /
+// the end of the function.
+func relaxedDelivers(c *core.Ctx, e *Env, isSend func(*types.Info, ast.Node) bool) {
+	key := "relaxedMailboxesLocal.handleConn:delivers-decoded-message"
+	fn := e.Ix.LookupMethod(an.PkgResources, "relaxedMailboxesLocal", "handleConn")
+	if fn == nil || fn.Body() == nil {
+		c.Lost(key, "relaxedMailboxesLocal.handleConn not found")
+		return
+	}
+	info := fn.Pkg.Info
+	g := e.Graph(fn)
+	errT := types.Universe.Lookup("error").Type()
+	var errObj types.Object
+	results := g.FindAtoms(func(a ast.Node) bool {
+		as, ok := a.(*ast.AssignStmt)
+		if !ok || len(as.Lhs) != 1 || len(as.Rhs) != 1 {
+			return false
+		}
+		o := an.ObjOf(info, as.Lhs[0])
+		if o == nil || !types.Identical(o.Type(), errT) {
+			return false
+		}
+		switch r := an.Unparen(as.Rhs[0]).(type) {
+		case *ast.UnaryExpr:
+			if r.Op != token.ARROW {
+				return false
+			}
+		case *ast.CallExpr:
+			if f := an.CalleeFunc(info, r); f == nil || f.Name() != "Decode" {
+				return false
+			}
+		default:
+			return false
+		}
+		errObj = o
+		return true
+	})
+	sends := g.FindAtoms(func(a ast.Node) bool { return isSend(info, a) })
+	if len(results) == 0 || len(sends) == 0 || errObj == nil {
+		c.Lost(key, "no decode result / delivery found in handleConn")
+		return
+	}
+	isResult := func(x ast.Node) bool {
+		for _, r := range results {
+			if r == x {
+				return true
+			}
+		}
+		return false
+	}
+	isDelivery := func(x ast.Node) bool {
+		for _, s := range sends {
+			if s == x {
+				return true
+			}
+		}
+		return false
+	}
+	nilLeaf := func(want bool) func(ex ast.Expr, val bool) bool {
+		return func(ex ast.Expr, val bool) bool {
+			be, ok := an.Unparen(ex).(*ast.BinaryExpr)
+			if !ok || (be.Op != token.EQL && be.Op != token.NEQ) {
+				return false
+			}
+			x, y := an.Unparen(be.X), an.Unparen(be.Y)
+			if id, isId := x.(*ast.Ident); isId && id.Name == "nil" {
+				x, y = y, x
+			}
+			if id, isId := y.(*ast.Ident); !isId || id.Name != "nil" || an.ObjOf(info, x) != errObj {
+				return false
+			}
+			isNil := (be.Op == token.EQL) == val
+			return isNil == want
+		}
+	}
+	// edges on which the error is known to be nil / non-nil
+	known := func(want bool) func(from *cfg.Block, i int) bool {
+		return func(from *cfg.Block, i int) bool {
+			cd, _ := g.Cond(from)
+			if cd == nil || len(from.Succs) != 2 {
+				return false
+			}
+			return an.Implies(cd, i == 0, nilLeaf(want))
+		}
+	}
+	knownNil, knownNonNil := known(true), known(false)
+	if p := g.Search(an.Query{Target: isDelivery, Avoid: isResult}); p.Found {
+		c.Bad(key, p.Target.Pos(), "a message can be delivered on a path that never received a decode result")
+		return
+	}
+	for _, r := range results {
+		if p := g.Search(an.Query{From: r, Target: isDelivery, Avoid: isResult, Edges: func(from *cfg.Block, i int) bool { return !knownNil(from, i) }}); p.Found {
+			c.Bad(key, p.Target.Pos(), "a message is delivered although the decode that produced it may have failed (no nil test of its error on the way): garbage, or the previous message again, reaches the reader")
+			return
+		}
+		if p := g.Search(an.Query{From: r, Target: isResult, ToExit: true, Avoid: isDelivery, Edges: func(from *cfg.Block, i int) bool { return !knownNonNil(from, i) }, Feasible: true}); p.Found {
+			// a path on which the error was never found non-nil and yet nothing was delivered: legitimate only if the
+			// path never found it nil either and ... there is no such legitimate path: an untested error is the first case
+			if !leavesOnShutdown(g, info, p) {
+				c.Bad(key, r.Pos(), "a successfully decoded message can be dropped: some path from the decode result, on which its error was not found to be non-nil, reaches the next round or the end of the function without delivering it")
+				return
+			}
+		}
+	}
+	c.Ok(key, sends[0].Pos(), "every delivery follows a decode whose error was found nil, and every such decode is followed by a delivery")
+}
+
+// leavesOnShutdown: the witness path ends the function (no further decode result) - the receiver is shutting down.
+func leavesOnShutdown(g *an.Graph, info *types.Info, p an.Path) bool {
+	return p.Target == nil
 }
